@@ -8,6 +8,7 @@ package processor
 // to now-age right before the call).  After every op the outputs and a projection of the state are recorded.
 
 import (
+	"sync/atomic"
 	"context"
 	"crypto/ecdsa"
 	"encoding/binary"
@@ -231,7 +232,13 @@ func outObs(tag byte, o *gossipv1.SignedObservation) []byte {
 }
 
 // run one op against the real code; record outputs and state projection
+// handlers that did not return, over the whole test run: after three the remaining ops are not run any more (each would wait again)
+var vBlockedTotal int32
+
 func (dr *vDriver) do(op vOp, f func()) bool {
+	if atomic.LoadInt32(&vBlockedTotal) >= 3 {
+		return false
+	}
 	dr.h.Ops = append(dr.h.Ops, op)
 	st := vStep{Outs: []string{}}
 	var eps time.Duration
@@ -257,6 +264,7 @@ func (dr *vDriver) do(op vOp, f func()) bool {
 			st.Panic = pv
 		case <-time.After(vBlockDeadline):
 			blocked = true
+			atomic.AddInt32(&vBlockedTotal, 1)
 			st.Panic = fmt.Sprintf("BLOCKED: the %s handler did not return within %v", op.K, vBlockDeadline)
 		}
 	}
